@@ -741,7 +741,14 @@ def rule_columns(ctx):
     ctx.note("MultiPattern::score zips pattern columns with the haystack slice: a shorter haystack silently drops columns (API precondition: columns fixed at construction)")
 
 
+def rule_config_writes(ctx):
+    """A pattern's score is the sum of its atoms' scores only if nothing but the documented per-atom stores (ignore_case, normalize in Atom::score / Atom::indices) changes the shared matcher's configuration while atoms are evaluated (shared with C10.config-only-state)."""
+    from props.c10 import rule_config_only_state as r
+    r(ctx)
+
+
 def rules(ctx):
+    ctx.run_rule("C15.config-writes", rule_config_writes)
     ctx.run_rule("C15.config-before-call", rule_config_before_call)
     ctx.run_rule("C15.dispatch-tables", rule_dispatch_tables)
     ctx.run_rule("C15.negation", rule_negation)
